@@ -92,7 +92,8 @@ fn main() {
                 let wo: u64 = arg(&args, "wo", 0);
                 let faults: u64 = arg(&args, "faults", 0);
                 let extreme: u64 = arg(&args, "extreme", 0);
-                cli::generate(&mut out, seed, scripts, len, wo == 1, faults == 1, extreme == 1);
+                let long: u64 = arg(&args, "long", 0);
+                cli::generate(&mut out, seed, scripts, len, wo == 1, faults == 1, extreme == 1, long == 1);
             } else {
                 for (i, (h, ops)) in read_scripts(&replay).iter().enumerate() {
                     let p = cli::Params::from_header(h);
@@ -111,7 +112,8 @@ fn main() {
                 let wo: u64 = arg(&args, "wo", 0);
                 let faults: u64 = arg(&args, "faults", 0);
                 let extreme: u64 = arg(&args, "extreme", 0);
-                srv::generate(&mut out, seed, scripts, len, wo == 1, faults == 1, extreme == 1);
+                let long: u64 = arg(&args, "long", 0);
+                srv::generate(&mut out, seed, scripts, len, wo == 1, faults == 1, extreme == 1, long == 1);
             } else {
                 for (i, (h, ops)) in read_scripts(&replay).iter().enumerate() {
                     let p = srv::Params::from_header(h);
